@@ -1,7 +1,9 @@
 (* Dispatch table of the extracted model executable: one command per modelled function. *)
-From FV Require Import Base.Prelude Model.ScriptBlocks Model.MathFuncs gen.MathTable.
+From FV Require Import Base.Prelude Model.ScriptBlocks Model.MathFuncs gen.MathTable Model.Binding.
 
 Definition dispatch (cmd : string) (arg : sexp) : sexp :=
   if String.eqb cmd "c15.gen" then ScriptBlocks.run_gen arg
   else if String.eqb cmd "c12.audit" then MathFuncs.audit math_env documented
+  else if String.eqb cmd "c08.resolve" then Binding.run_resolve arg
+  else if String.eqb cmd "c08.rewrite" then Binding.run_rewrite arg
   else s_tag "unknown-command" [SAtom cmd].
